@@ -39,9 +39,11 @@ where
                 rank: a_infos.rank(),
             };
             let lvl_2_0: usize = GLWE::<Vec<u8>>::bytes_of_from_infos(&a_conv_infos);
-            let lvl_2_1: usize =
-                self.glwe_normalize_tmp_bytes()
-                    .max(self.glwe_keyswitch_internal_tmp_bytes(res_infos, &a_conv_infos, key_infos));
+            // the add / sub automorphisms normalise the result while the converted input is still held
+            let lvl_2_1: usize = self
+                .glwe_normalize_tmp_bytes()
+                .max(self.glwe_keyswitch_internal_tmp_bytes(res_infos, &a_conv_infos, key_infos))
+                .max(lvl_1);
             lvl_2_0 + lvl_2_1
         } else {
             self.glwe_keyswitch_internal_tmp_bytes(res_infos, a_infos, key_infos)
